@@ -11,6 +11,8 @@ cd /verif
 PYTHONPATH=$WT VERIF_EVIDENCE_DIR=/verif/.work/seedruns/$S /venv/bin/python -m harness.check $P --tier $T > /verif/.work/seedruns/$S/$P.$T.log 2>&1
 RC=$?
 git -C /repo worktree remove --force $WT
+# the run regenerated lean/PrecondVerif/Gen/Src.lean from the PATCHED tree: restore the committed (clean-tree) text
+git -C /verif checkout -- lean/PrecondVerif/Gen/Src.lean 2>/dev/null
 V=$(grep -c "^VIOLATION" /verif/.work/seedruns/$S/$P.$T.log)
 echo "$S check=$P tier=$T exit=$RC violation_lines=$V :: $(grep '^VIOLATION\|^OK\|^infrastructure' /verif/.work/seedruns/$S/$P.$T.log | head -2 | tr '\n' ' ')"
 # record the outcome next to the seed (committed): which check, tier, exit code, first reported failing input
